@@ -13,7 +13,8 @@ import (
 	"verif/lib"
 )
 
-const procTimeout = 20 * time.Minute
+// watchdog per child process; a firing is reported as inconclusive, never as a verdict
+var procTimeout = 25 * time.Minute
 
 type driver struct {
 	e  *lib.Env
@@ -52,6 +53,9 @@ func drive() {
 		"'alone' = the same request on a fresh VM + freshly registered server in the same worker process with nothing else in flight, served twice; a request whose two solitary answers differ is not compared",
 	)
 	e.RunScriptWitnesses()
+	if e.Quick() {
+		procTimeout = 6 * time.Minute
+	}
 
 	// phase 1: scripted interleavings (gate) and sequential scenarios, plain build
 	var jobs []job
